@@ -6,6 +6,7 @@ structure function    sf[j] = mean over all rows r with r + j*step < a and all c
 temporal power spectrum   P[..., k] = mean over sub-apertures c of | sum_t x[..., t, c] exp(-2 pi i k t / n) |^2
                           for the bins k = 0 .. floor(n/2) - 1 ;  frequency axis f_k = k * rate / n
 """
+import functools
 import math
 import numpy
 
@@ -44,21 +45,42 @@ def structure_function_lag_fast(phase, shift):
     return float(numpy.sum(d * d) / d.size)
 
 
-def dft_matrix(n, nbins):
-    t = numpy.arange(n)
-    k = numpy.arange(nbins)
-    return numpy.exp(-2j * math.pi * numpy.outer(k, t) / n)
+def dft_matrix(n, nbins, first=0):
+    """see _dft_matrix; small matrices are kept (read-only) because the checks ask for the same one many times"""
+    if n * nbins <= 1 << 18:
+        return _dft_matrix_cached(n, nbins, first)
+    return _dft_matrix(n, nbins, first)
 
 
-def temporal_power_spectrum(x):
-    """x: array (..., n_frames, n_subaps) -> (..., floor(n/2)) by an explicit DFT sum."""
+@functools.lru_cache(maxsize=4)
+def _dft_matrix_cached(n, nbins, first):
+    W = _dft_matrix(n, nbins, first)
+    W.flags.writeable = False
+    return W
+
+
+def _dft_matrix(n, nbins, first=0):
+    """rows first .. first+nbins-1 of the DFT matrix.  The product k*t is reduced mod n (exact integer arithmetic)
+    BEFORE the phase is formed: exp(-2 pi i k t / n) has period n in k*t, and without the reduction the rounding
+    error of the phase grows like n (1e-13 at n = 1000); with it every entry is accurate to ~1e-16 for any n."""
+    t = numpy.arange(n, dtype=numpy.int64)
+    k = numpy.arange(first, first + nbins, dtype=numpy.int64)
+    return numpy.exp(-2j * math.pi * ((numpy.outer(k, t) % n) / float(n)))
+
+
+def temporal_power_spectrum(x, nbins=None, block=256):
+    """x: array (..., n_frames, n_subaps) -> (..., nbins) by an explicit DFT sum (bins k = 0 .. nbins-1;
+    default floor(n/2) bins).  The DFT matrix is built in blocks of rows so that long records stay cheap."""
     x = numpy.asarray(x, dtype=float)
     n = x.shape[-2]
-    nb = n // 2
-    W = dft_matrix(n, nb)                                   # (nb, n)
-    X = numpy.einsum("kt,...tc->...kc", W, x)
-    P = X.real ** 2 + X.imag ** 2
-    return P.sum(axis=-1) / x.shape[-1]
+    nb = n // 2 if nbins is None else int(nbins)
+    out = numpy.zeros(x.shape[:-2] + (nb,))
+    for k0 in range(0, nb, block):
+        W = dft_matrix(n, min(block, nb - k0), k0)          # (rows, n)
+        X = numpy.matmul(W, x)                              # (..., rows, c)
+        P = X.real ** 2 + X.imag ** 2
+        out[..., k0:k0 + W.shape[0]] = P.sum(axis=-1) / x.shape[-1]
+    return out
 
 
 def frequency_axis(rate, n):
